@@ -122,7 +122,7 @@ fn bad_reply(rng: &mut impl RngCore) -> Vec<u8> {
     b
 }
 
-fn run_twin(c: &mut Ctx, m: &'static Merchant, name: &str, cust0: u64, merch0: u64, steps: usize, restore_every: bool, crafted: Option<(usize, [u8; 64])>, json: u8) {
+fn run_twin(c: &mut Ctx, m: &'static Merchant, name: &str, cust0: u64, merch0: u64, steps: usize, restore_every: bool, crafted: Option<(usize, [u8; 64])>, json: u8, nbad: usize) {
     let mut rng = c.rng(name);
     let ctxb = name.as_bytes().to_vec();
     let cid = new_channel_id(m, &mut rng, b"m", b"c");
@@ -172,9 +172,11 @@ fn run_twin(c: &mut Ctx, m: &'static Merchant, name: &str, cust0: u64, merch0: u
         _ => return c.inconclusive("C20: honest establish refused (C04's subject)"),
     };
     // a refused reply first, then restore, then the honest one
-    let bad = bad_reply(&mut rng);
-    if tryo!(t.both(c, "requested/bad-reply", |s| s.c_complete(&bad))) {
-        return c.inconclusive("C20: random signature accepted (C03's subject)");
+    for _ in 0..nbad {
+        let bad = bad_reply(&mut rng);
+        if tryo!(t.both(c, "requested/bad-reply", |s| s.c_complete(&bad))) {
+            return c.inconclusive("C20: random signature accepted (C03's subject)");
+        }
     }
     t.trail.push("bad closing signature refused".into());
     if !t.maybe_restore(c, &mut rng, "requested-after-refusal") {
@@ -191,9 +193,11 @@ fn run_twin(c: &mut Ctx, m: &'static Merchant, name: &str, cust0: u64, merch0: u
         Ok(x) => x,
         Err(e) => return c.inconclusive(&e),
     };
-    let bad = bad_reply(&mut rng);
-    if tryo!(t.both(c, "inactive/bad-reply", |s| s.c_activate(&bad))) {
-        return c.inconclusive("C20: random pay token accepted (C03's subject)");
+    for _ in 0..nbad {
+        let bad = bad_reply(&mut rng);
+        if tryo!(t.both(c, "inactive/bad-reply", |s| s.c_activate(&bad))) {
+            return c.inconclusive("C20: random pay token accepted (C03's subject)");
+        }
     }
     if !t.maybe_restore(c, &mut rng, "inactive-after-refusal") {
         return;
@@ -268,9 +272,11 @@ fn run_twin(c: &mut Ctx, m: &'static Merchant, name: &str, cust0: u64, merch0: u
             }
             _ => return c.inconclusive("C20: honest pay proof refused (C04's subject)"),
         };
-        let bad = bad_reply(&mut rng);
-        if tryo!(t.both(c, "started/bad-reply", |s| s.c_lock(&bad))).is_some() {
-            return c.inconclusive("C20: random closing signature accepted (C03's subject)");
+        for _ in 0..nbad {
+            let bad = bad_reply(&mut rng);
+            if tryo!(t.both(c, "started/bad-reply", |s| s.c_lock(&bad))).is_some() {
+                return c.inconclusive("C20: random closing signature accepted (C03's subject)");
+            }
         }
         if !t.maybe_restore(c, &mut rng, "started-after-refusal") {
             return;
@@ -288,9 +294,11 @@ fn run_twin(c: &mut Ctx, m: &'static Merchant, name: &str, cust0: u64, merch0: u
             Ok(Some(x)) => x,
             _ => return c.inconclusive("C20: honest revocation refused (C05's subject)"),
         };
-        let bad = bad_reply(&mut rng);
-        if tryo!(t.both(c, "locked/bad-reply", |s| s.c_unlock(&bad))) {
-            return c.inconclusive("C20: random pay token accepted (C03's subject)");
+        for _ in 0..nbad {
+            let bad = bad_reply(&mut rng);
+            if tryo!(t.both(c, "locked/bad-reply", |s| s.c_unlock(&bad))) {
+                return c.inconclusive("C20: random pay token accepted (C03's subject)");
+            }
         }
         if !t.maybe_restore(c, &mut rng, "locked-after-refusal") {
             return;
@@ -341,7 +349,7 @@ pub fn run(c: &mut Ctx) {
         for mode in [1u8, 2] {
             let name = format!("twin-json{}/{}-{}/{}", i, cust, merch, if mode == 1 { "json" } else { "alternating" });
             c.case(&name, |c| {
-                if let Err(p) = guard(|| run_twin(c, m, &name, cust, merch, steps.min(4), true, None, mode)) {
+                if let Err(p) = guard(|| run_twin(c, m, &name, cust, merch, steps.min(4), true, None, mode, 1)) {
                     c.violation(&format!("C20 panic loc={}", repo_rel(&p.location)), json!({"panic": p.message}));
                 }
             });
@@ -351,7 +359,7 @@ pub fn run(c: &mut Ctx) {
         for every in [true, false] {
             let name = format!("twin{}/{}-{}/{}", i, cust, merch, if every { "every" } else { "random" });
             c.case(&name, |c| {
-                if let Err(p) = guard(|| run_twin(c, m, &name, cust, merch, steps, every, None, if i % 5 == 4 { 2 } else { 0 })) {
+                if let Err(p) = guard(|| run_twin(c, m, &name, cust, merch, steps, every, None, if i % 5 == 4 { 2 } else { 0 }, if i % 4 == 1 { 4 } else { 1 })) {
                     c.violation(&format!("C20 panic loc={}", repo_rel(&p.location)), json!({"panic": p.message}));
                 }
             });
@@ -361,7 +369,7 @@ pub fn run(c: &mut Ctx) {
             for (pname, pat) in patterns.iter() {
                 let name = format!("twin{}/{}-{}/{}-sample{}", i, cust, merch, pname, i);
                 c.case(&name, |c| {
-                    if let Err(p) = guard(|| run_twin(c, m, &name, cust, merch, steps.min(3), true, Some((i, *pat)), 0)) {
+                    if let Err(p) = guard(|| run_twin(c, m, &name, cust, merch, steps.min(3), true, Some((i, *pat)), 0, 1)) {
                         c.violation(&format!("C20 panic loc={}", repo_rel(&p.location)), json!({"panic": p.message}));
                     }
                 });
